@@ -3,6 +3,7 @@
 mod chars;
 mod layoutcmd;
 mod matchcmd;
+mod patcmd;
 mod utf32cmd;
 
 fn main() {
@@ -14,6 +15,8 @@ fn main() {
         "layout" => layoutcmd::run(&args[2]),
         "utf32-seg" => utf32cmd::seg(&args[2]),
         "utf32" => utf32cmd::run(&args[2]),
+        "c15-prepare" => patcmd::prepare(&args[2]),
+        "c15-run" => patcmd::run(&args[2]),
         "match" => matchcmd::run(&args[2], args.get(3).map_or(false, |s| s == "fresh")),
         _ => {
             eprintln!("usage: hm dump-std | chars-sweep [limit]");
